@@ -442,6 +442,38 @@ func runC03(c *eng.Ctx) {
 	// ---- every input block is decoded over its own slot range and re-encoded ---------------------------------------------------------
 	c.Rule("PROV", "tsdb/tblstore/metricsdata.seriesMerger.merge{decode with the block's own range}", func() { seriesMergerOwnRange(c) })
 
+	c.Rule("PASS", "aggregation{forward-only TSD cursor: every slot asked, every value consumed}", func() { sequentialCursorRules(c) })
+
+	c.Rule("PROV", mgT+".prepare{target field list is the merger's own slice}", func() {
+		f := c.Fn(mgT + ".prepare")
+		sts := c.Some(f, eng.StoreField("tsdb/tblstore/metricsdata.mergerContext.targetFields"), "ctx.targetFields = …")
+		srt := p.Sites(f, eng.CallTo("sort.Slice", "sort.Sort", "sort.SliceStable", "slices.SortFunc"))
+		c.Check(len(srt) > 0, "sorted-in-place", nil, f, "the target field list is sorted in place (by field id)", "")
+		for i, st := range sts {
+			v := eng.Unwrap(st.Instr.(*ssa.Store).Val)
+			own := false
+			if cl, ok := v.(*ssa.Call); ok {
+				if b, ok := cl.Common().Value.(*ssa.Builtin); ok && b.Name() == "append" {
+					own = true
+				}
+			}
+			if _, ok := v.(*ssa.MakeSlice); ok {
+				own = true
+			}
+			if sl, ok := v.(*ssa.Slice); ok {
+				if _, lit := sl.X.(*ssa.Alloc); lit {
+					own = true // a slice literal
+				}
+			}
+			if k, ok := v.(*ssa.Const); ok && k.IsNil() {
+				own = true
+			}
+			c.Check(own, fmt.Sprintf("owned[%d]", i), st.Instr, f,
+				"the list that is later sorted in place is built by the merger itself (append / make), never a slice handed out by a block reader: sorting a reader's own field metas re-orders the table its scanner uses to locate field data",
+				"assigns "+p.Desc(v))
+		}
+	})
+
 	// ---- block writer anchors -----------------------------------------------------------------------------------------------------------
 	c.Rule("ANCHOR", mfT+".FlushSeries{startAt}", func() { flusherAnchors(c) })
 
@@ -750,6 +782,10 @@ func fieldDataOnlyForHeldField(c *eng.Ctx) {
 			fs := facts.At(r)
 			held := facts.Find(fs, "true", func(_ string, v ssa.Value) bool { return extractIs(v, look, 1) }, nil)
 			c.Check(len(held) > 0, fmt.Sprintf("data-only-if-field-held[%d]", n), r, f, "data is returned only when the block's field index holds the requested field id",
+				"returns "+p.Desc(rv)+" with facts: "+strings.Join(facts.Render(fs), " ; "))
+			open := facts.Find(fs, "false", eng.DescSuffix(".completed"), nil)
+			c.Check(len(open) > 0, fmt.Sprintf("data-only-while-not-completed[%d]", n), r, f,
+				"data is returned only while the reader is not completed: the merger keeps one reader per block across series and relies on Close() to silence a reader whose block lacks the current series (a stale series entry must not be read again)",
 				"returns "+p.Desc(rv)+" with facts: "+strings.Join(facts.Render(fs), " ; "))
 			n++
 		}
